@@ -45,23 +45,29 @@ impl Projector {
                     blocks.extend(self.with(self.header_level + 1).project_node(child));
                 }
             }
+            // a quote or list without content has nothing to write, not even a blank line
             Node::Quote() => {
                 if let Some(child) = iter.child() {
-                    blocks.push(GraphBlock::BlockQuote(self.with(0).project_node(child)));
+                    let quote = self.with(0).project_node(child);
+                    if !quote.is_empty() {
+                        blocks.push(GraphBlock::BlockQuote(quote));
+                    }
                 }
             }
             Node::BulletList() => {
                 if let Some(child) = iter.child() {
-                    blocks.push(GraphBlock::BulletList(
-                        self.with(0).project_list_item(child),
-                    ));
+                    let items = self.with(0).project_list_item(child);
+                    if !items.is_empty() {
+                        blocks.push(GraphBlock::BulletList(items));
+                    }
                 }
             }
             Node::OrderedList() => {
                 if let Some(child) = iter.child() {
-                    blocks.push(GraphBlock::OrderedList(
-                        self.with(0).project_list_item(child),
-                    ));
+                    let items = self.with(0).project_list_item(child);
+                    if !items.is_empty() {
+                        blocks.push(GraphBlock::OrderedList(items));
+                    }
                 }
             }
             Node::Leaf(_) => {
